@@ -379,6 +379,30 @@ theorem C08_D25_nonleader_entry_is_not_greedy :
     consumed (parse (envD25 rulesD25iter false "bxy") 40) = some 2 := by
   decide
 
+/-- `A <- Z C "a" / "q"` (leader) ; `Z <- A "y" / ""` ; `C <- A "z" / "c"` with the marks pigeon EMITS for it: `C` is NOT marked
+    left-recursive although it lies on a same-position cycle (`Z` is nullable); `correct = true` gives the marks it should carry -/
+def rulesD37 (correct : Bool) : List Rule :=
+  [ { name := "A", displayName := "", leader := true, leftRecursive := true,
+      expr := .choice 1 1 1 [.seq 2 [.ruleRef 3 "Z", .ruleRef 4 "C", lit 5 "a"], lit 6 "q"] },
+    { name := "Z", displayName := "", leader := false, leftRecursive := true,
+      expr := .choice 7 2 1 [.seq 8 [.ruleRef 9 "A", lit 10 "y"], lit 11 ""] },
+    { name := "C", displayName := "", leader := false, leftRecursive := correct,
+      expr := .choice 12 3 1 [.seq 13 [.ruleRef 14 "A", lit 15 "z"], lit 16 "c"] } ]
+
+def envD37 (correct memo : Bool) : Env :=
+  { flags := { optimize := false, globalState := false, leftRec := true, basicLatin := false },
+    opts := { memoize := memo }, rules := rulesD37 correct,
+    code := { args := fun _ => [], run := fun _ ctx => { state := ctx.state, global := ctx.global } },
+    toLower := id, input := "caza".toList.map (·.toNat) }
+
+/-- **Finding D37 on the model**: with the marks pigeon emits, `caza` is matched completely by default and only up to offset 2
+    with `Memoize(true)` - the unmarked `C` is memoized during the first growth round of `A`. With `C` marked (as a rule on a
+    same-position cycle should be) both configurations match all four bytes. -/
+theorem C08_D37_unmarked_rule_on_a_cycle_is_memoized :
+    consumed (parse (envD37 false false) 60) = some 4 ∧ consumed (parse (envD37 false true) 60) = some 2 ∧
+    consumed (parse (envD37 true false) 60) = some 4 ∧ consumed (parse (envD37 true true) 60) = some 4 := by
+  decide
+
 end Witness
 
 end RT
